@@ -237,7 +237,7 @@ rx = re.compile(pat, flags)
 fn = rx.search if how == "search" else rx.match
 out = []
 for s in json.loads(sys.stdin.read()):
-    t = time.perf_counter(); fn(s); out.append(time.perf_counter() - t)
+    t = time.process_time(); fn(s); out.append(time.process_time() - t)      # CPU seconds
     print("T %d %.6f" % (len(s), out[-1]), flush=True)
 '''
 
@@ -348,7 +348,7 @@ sys.path.insert(0, sys.argv[1]); sys.path.insert(0, sys.argv[2])
 import productmd.composeinfo as ci, productmd.common as c, productmd.modules, productmd.treeinfo as ti
 from mc.build import ci as CI
 name, value = sys.argv[3], sys.argv[4]
-t = time.perf_counter()
+t = time.process_time()          # CPU time: a busy machine must not look like a stall
 try:
     if name in ("release.version", "release.short", "compose.id", "compose.date", "compose.label", "variant.id"):
         doc = json.loads(CI.build(CI.seed_flat()).dumps())
@@ -385,7 +385,7 @@ try:
         ti.TreeInfo().loads("[general]\nfamily = Foo\nversion = %s\narch = x86_64\nvariant = Server\n" % value)
 except Exception:
     pass
-print("ELAPSED %.4f" % (time.perf_counter() - t))
+print("ELAPSED %.4f" % (time.process_time() - t))
 '''
 
 DOC_PROBES = [
@@ -406,7 +406,7 @@ def eval_doc_probe(name, value):
     t0 = time.time()
     try:
         p = subprocess.run([sys.executable, "-c", DOC_PROBE, REPO, VERIF, name, value], env=env, stdout=subprocess.PIPE,
-                           stderr=subprocess.PIPE, universal_newlines=True, timeout=8)
+                           stderr=subprocess.PIPE, universal_newlines=True, timeout=20)
         el = [float(l.split()[1]) for l in p.stdout.splitlines() if l.startswith("ELAPSED ")]
         return {"finished": bool(el), "stalls": bool(el and el[0] > 2.0)}
     except subprocess.TimeoutExpired:
